@@ -27,14 +27,14 @@ VARIANTS = [
     dict(id="c04-journal-helper-ignores-finished", prop="C04", file=JS, expect="R04.1",
          old="        elif self._trials[trial_id].state.is_finished():", new="        elif self._trials[trial_id].state == TrialState.COMPLETE:"),
     dict(id="c04-pop-ignores-result", prop="C04", file=ST, expect="R04.2",
-         old="            if not self._storage.set_trial_state_values(trial._trial_id, state=TrialState.RUNNING):\n                continue\n",
-         new="            self._storage.set_trial_state_values(trial._trial_id, state=TrialState.RUNNING)\n"),
+         old="            try:\n                if not self._storage.set_trial_state_values(\n                    trial._trial_id, state=TrialState.RUNNING\n                ):\n                    continue\n",
+         new="            try:\n                self._storage.set_trial_state_values(trial._trial_id, state=TrialState.RUNNING)\n"),
     dict(id="c04-pop-inverted", prop="C04", file=ST, expect="R04.2",
-         old="            if not self._storage.set_trial_state_values(trial._trial_id, state=TrialState.RUNNING):\n                continue\n",
-         new="            if self._storage.set_trial_state_values(trial._trial_id, state=TrialState.RUNNING):\n                continue\n"),
+         old="            try:\n                if not self._storage.set_trial_state_values(\n                    trial._trial_id, state=TrialState.RUNNING\n                ):\n                    continue\n",
+         new="            try:\n                if self._storage.set_trial_state_values(\n                    trial._trial_id, state=TrialState.RUNNING\n                ):\n                    continue\n"),
     dict(id="c04-pop-lists-running-too", prop="C04", file=ST, expect="R04.2",
-         old="            self._study_id, deepcopy=False, states=(TrialState.WAITING,)\n        ):\n            if not self._storage.set_trial_state_values",
-         new="            self._study_id, deepcopy=False, states=None\n        ):\n            if not self._storage.set_trial_state_values"),
+         old="            self._study_id, deepcopy=False, states=(TrialState.WAITING,)\n        ):\n            try:",
+         new="            self._study_id, deepcopy=False, states=None\n        ):\n            try:"),
     dict(id="c04-requeue-on-failure", prop="C04", file="optuna/storages/_callbacks.py", expect="R04.3",
          old="        system_attrs[\"retry_history\"].append(trial.number)\n",
          new="        system_attrs[\"retry_history\"].append(trial.number)\n        if self._max_retry == 0:\n            study._storage.set_trial_state_values(trial._trial_id, state=optuna.trial.TrialState.WAITING)\n            return\n"),
@@ -77,8 +77,8 @@ VARIANTS = [
          old="            if state == TrialState.RUNNING and trial.state != TrialState.WAITING:\n                return False\n",
          new="            if state == TrialState.RUNNING:\n                if not (trial.state == TrialState.WAITING):\n                    return False\n"),
     dict(id="c04-neutral-pop-positive-form", prop="C04", file=ST, expect=None,
-         old="            if not self._storage.set_trial_state_values(trial._trial_id, state=TrialState.RUNNING):\n                continue\n\n            _logger.debug(\"Trial {} popped from the trial queue.\".format(trial.number))\n            return trial._trial_id\n",
-         new="            if self._storage.set_trial_state_values(trial._trial_id, state=TrialState.RUNNING):\n                _logger.debug(\"Trial {} popped from the trial queue.\".format(trial.number))\n                return trial._trial_id\n"),
+         old="            try:\n                if not self._storage.set_trial_state_values(\n                    trial._trial_id, state=TrialState.RUNNING\n                ):\n                    continue\n            except exceptions.UpdateFinishedTrialError:\n                # Another worker has claimed and already finished the trial.\n                continue\n\n            _logger.debug(\"Trial {} popped from the trial queue.\".format(trial.number))\n            return trial._trial_id\n",
+         new="            try:\n                claimed = self._storage.set_trial_state_values(trial._trial_id, state=TrialState.RUNNING)\n            except exceptions.UpdateFinishedTrialError:\n                claimed = False\n            if claimed:\n                _logger.debug(\"Trial {} popped from the trial queue.\".format(trial.number))\n                return trial._trial_id\n"),
 ]
 
 VARIANTS += [
@@ -144,4 +144,19 @@ VARIANTS += [
     dict(id="c04-inmem-template-shallow-copy", prop="C04", file=IM4, expect="R04.6",
          old="                trial = copy.deepcopy(template_trial)\n",
          new="                trial = copy.copy(template_trial)\n"),
+]
+
+VARIANTS += [
+    dict(id="c04-pop-no-finished-catch", prop="C04", file=ST, expect="R04.2",
+         old="            except exceptions.UpdateFinishedTrialError:\n                # Another worker has claimed and already finished the trial.\n                continue\n",
+         new="            except exceptions.UpdateFinishedTrialError:\n                raise\n"),
+    dict(id="c04-pop-catches-other-error", prop="C04", file=ST, expect="R04.2",
+         old="            except exceptions.UpdateFinishedTrialError:\n                # Another worker has claimed",
+         new="            except KeyError:\n                # Another worker has claimed"),
+    dict(id="c04-fixed-value-through-internal-repr", prop="C04", file=TR, expect="R04.5",
+         old="            self._cached_frozen_trial.distributions[name] = distribution\n            self._cached_frozen_trial.params[name] = param_value\n",
+         new="            param_value = distribution.to_external_repr(param_value_in_internal_repr)\n            self._cached_frozen_trial.distributions[name] = distribution\n            self._cached_frozen_trial.params[name] = param_value\n"),
+    dict(id="c04-rdb-claim-test-in-earlier-session", prop="C04", file=RDB, expect="R04.1",
+         old="        try:\n            with _create_scoped_session(self.scoped_session) as session:\n                trial = models.TrialModel.find_or_raise_by_id(trial_id, session, for_update=True)\n                self.check_trial_is_updatable(trial_id, trial.state)\n\n                if state == TrialState.RUNNING and trial.state != TrialState.WAITING:\n                    return False\n",
+         new="        if state == TrialState.RUNNING:\n            with _create_scoped_session(self.scoped_session) as session:\n                if models.TrialModel.find_or_raise_by_id(trial_id, session).state != TrialState.WAITING:\n                    return False\n        try:\n            with _create_scoped_session(self.scoped_session) as session:\n                trial = models.TrialModel.find_or_raise_by_id(trial_id, session, for_update=True)\n                self.check_trial_is_updatable(trial_id, trial.state)\n"),
 ]
